@@ -344,6 +344,20 @@ example : delT liveCfg tSample "a".toList = (tSample, some .key) := by decide +k
 example : (delT liveCfg tSample "l[1].x".toList).2 = none ∧
     getT liveCfg (delT liveCfg tSample "l[1].x".toList).1 "l[1].x".toList = .error .key := by decide +kernel
 
+/-- **`pop( path, default )` of an absent entry of an existing level returns the default and leaves the
+tree unchanged, at any depth** — a pop by dotted path is the pop of the level that holds the last
+component (`AbsentLast`: every level down to the last component exists, the last component is not an
+entry of its level; `.ok none` = "the default was returned"). -/
+theorem pop_default_absent (segs : List Name) (kvs : Kvs) (h : AbsentLast kvs segs) :
+    popK kvs segs none true = (kvs, .ok none) :=
+  popK_default_absent segs kvs h
+
+example : AbsentLast (rootKvs tSample) ["a".toList, "zz".toList] := ⟨_, rfl, rfl⟩
+example : popT liveCfg tSample "a.zz".toList true = (tSample, .ok none) ∧
+    popT liveCfg tSample "a.b.c...zz".toList true = (tSample, .ok none) ∧
+    popT liveCfg tSample "a.zz".toList false = (tSample, .error .key) ∧
+    popT liveCfg tSample "q.zz".toList true = (tSample, .error .key) := by decide +kernel
+
 /-! ## 6. reserved method names are refused as keys -/
 
 /-- **An assignment whose path has a reserved plain component is refused** (repaired code: also when
